@@ -199,6 +199,17 @@ ModCases == {
   Case("mod-not-leaking", <<Set("a", H(1)), Set("m", ModE(<<Set("a", H(2))>>)), TupE(<<V("a"), Field(V("m"), "a")>>)>>, TupV(<<IntV(1), IntV(2)>>)),
   Case("mod-sees-outer", <<Set("a", H(1)), Set("m", ModE(<<Set("b", Bin("+", V("a"), I(1)))>>)), Field(V("m"), "b")>>, IntV(2)),
   Case("mod-empty", <<Set("m", ModE(<<>>)), V("m")>>, SV(<<>>)),
+  \* imports: the same, with the module's text in another file
+  Case("import-own-names", <<Set("outer", H(9)), Set("m", ImportE("m1.sl", <<Set("a", H(1)), Set("b", Block(<<Set("c", H(2)), V("c")>>)), Set("a", H(3))>>)), V("m")>>,
+       SV("a" :> IntV(3) @@ "b" :> IntV(2))),
+  Case("import-not-leaking", <<Set("a", H(1)), Set("m", ImportE("m2.sl", <<Set("a", H(2)), Set("z", H(5))>>)), TupE(<<V("a"), Field(V("m"), "a"), Field(V("m"), "z")>>)>>, T3(1, 2, 5)),
+  Case("import-function", <<Set("m", ImportE("m3.sl", <<Set("k", H(4)), FnDecl("dbl", <<P("v", WInt)>>, WInt, <<Ret(Bin("*", V("v"), V("k")))>>)>>)),
+                            Set("k", H(100)), CallE(Field(V("m"), "dbl"), <<H(3)>>)>>, IntV(12)),
+  Case("import-twice-fresh-cells", <<Set("m1", ImportE("m4.sl", <<Set("c", MutE(WInt, I(1)))>>)), Set("m2", ImportE("m4.sl", <<Set("c", MutE(WInt, I(1)))>>)),
+                                    Asg("+=", Field(V("m1"), "c"), I(5)), TupE(<<Deref(Field(V("m1"), "c")), Deref(Field(V("m2"), "c"))>>)>>, TupV(<<IntV(6), IntV(1)>>)),
+  Case("import-in-function", <<FnDecl("ld", <<>>, WInt, <<Set("m", ImportE("m5.sl", <<Set("a", H(7))>>)), Ret(Field(V("m"), "a"))>>), Set("a", H(1)),
+                               TupE(<<CallE(V("ld"), <<>>), V("a")>>)>>, TupV(<<IntV(7), IntV(1)>>)),
+  Case("import-nested", <<Set("m", ImportE("m6.sl", <<Set("inner", ImportE("m7.sl", <<Set("q", H(8))>>)), Set("p", Field(V("inner"), "q"))>>)), Field(V("m"), "p")>>, IntV(8)),
   Case("mod-destruct", <<Set("m", ModE(<<Destruct(<<"p", "q">>, TupE(<<H(1), H(2)>>))>>)), V("m")>>, SV("p" :> IntV(1) @@ "q" :> IntV(2)))
 }
 
